@@ -57,6 +57,7 @@ type Obligation struct {
 	ExpectSat bool
 	PathOnly  []string // cover:exit: the assumptions without lemma instances (second query, without library axioms)
 	NoAxioms  bool
+	RawPre    []string // commands written verbatim after the prelude (edge constants and instances of cover:axioms)
 	// terms whose model values are wanted on failure: label -> smt term
 	Watch map[string]string
 	// results
